@@ -54,6 +54,17 @@ def cases(rng, tier):
             wire = b"\x01a\x00" + rt.to_bytes(2, "big") + b"\x00\x01\x00\x00\x00\x05" + len(rd).to_bytes(2, "big") + rd
             for qt in (rt, 255, 253, 10, 1, 15):
                 out.append("RRMATCH %s %x 1" % (wire.hex(), qt))
+    # parsed records: every (type code, class code) cross over the supported and the meta type codes and the class codes around
+    # every assigned value (with and without the cache-flush bit): an unsupported class is an error whatever the type
+    tcs = sorted(set(rts) | {249, 250, 251, 252, 253, 254, 255, 256, 257, 32768, 32769, 65280})
+    ccs = sorted(set(range(0, 8)) | {253, 254, 255, 256, 257, 0x7FFF, 0x8000, 0x8001, 0x8002, 0x8003, 0x8004, 0x8005, 0x80FE, 0x80FF, 0xFFFE, 0xFFFF})
+    for rt in tcs:
+        if rt == 41:
+            continue
+        rd = REFRD.get(rt, b"")
+        for cc in ccs:
+            wire = b"\x01a\x00" + rt.to_bytes(2, "big") + cc.to_bytes(2, "big") + b"\x00\x00\x00\x05" + len(rd).to_bytes(2, "big") + rd
+            out.append("RRMATCH %s %x %x" % (wire.hex(), rt if rt not in (252, 251) else 255, cc & 0x7FFF if (cc & 0x7FFF) in (1, 2, 3, 4, 254) else 255))
     return out
 
 
@@ -114,10 +125,15 @@ def oracle(case, out):
     if t[0] == "RRMATCH":
         d = bytes.fromhex(t[1])
         rt = int.from_bytes(d[3:5], "big")
+        wc = int.from_bytes(d[5:7], "big") & 0x7FFF        # the top bit of the class field is the mDNS cache-flush bit
+        if wc not in CLASSES:
+            if out.startswith("OK"):
+                return "a record of type %d whose class field holds the unsupported code %d was accepted (%r): aliased, not reported" % (rt, wc, out[:60])
+            return None
         if not out.startswith("OK "):
-            return "a well-formed record of type %d was rejected: %r" % (rt, out)
+            return "a well-formed record of type %d, class %d was rejected: %r" % (rt, wc, out)
         out = out[3:]
-        t = ["MATCH", "%x" % rt, "1", t[2], t[3]]
+        t = ["MATCH", "%x" % rt, "%x" % wc, t[2], t[3]]
     if t[0] in ("MATCH", "MATCHN"):
         rt, rc, qt, qc = (int(x, 16) for x in t[1:5])
         rname = tyname(rt)
